@@ -676,8 +676,72 @@ def _leaf_ignores_state(ctx):
                construct='Server.%s does not test the state' % name)
 
 
+def _state_record(ctx):
+    """C08.6: the stored record of a server's state - what a new master and
+    a reload restart the retention clock from - is the model's own pair:
+    it is written by one routine, with the state and the since that
+    ``get_state()`` returns (a time taken when the record is written moves
+    "down since" forward every time an unchanged state is recorded again),
+    and nobody else writes or clears that node."""
+    index = ctx.index
+    master = index.get_class(K.MASTER, 'Master')
+    writers = []
+    for mod in (index.module(K.MASTER), index.module(K.LOADER)):
+        for func in mod.live_functions():
+            for call in K.calls(func.node):
+                if K.is_meth(call, 'put', 'update', 'delete',
+                             'ensure_deleted') and \
+                        (K.recv_text(call) or '').endswith('backend') and \
+                        call.args:
+                    arg = K.rexpr(func, call.args[0])
+                    if isinstance(arg, ast.Call) and N.txt(
+                            arg.func).endswith('path.placement') and \
+                            len(arg.args) == 1:
+                        writers.append((func, call))
+    ctx.require(writers, 'writer of the server state record', rule='C08.6')
+    recorders = set(f.qualname for f, c in writers if c.func.attr == 'put'
+                    and len(c.args) > 1 and isinstance(
+                        K.rexpr(f, c.args[1]), ast.Dict))
+    for func, call in writers:
+        ok = func.qualname in recorders and len(recorders) == 1 and \
+            call.func.attr == 'put'
+        if call.func.attr in ('delete', 'ensure_deleted') and \
+                func.name in ('remove_server', 'delete_server'):
+            continue        # the node of a deleted server goes with it
+        ctx.ob('C08.6', func, call, ok,
+               'the state record of a server is written by the state '
+               'recorder only (%s)' % sorted(recorders),
+               construct='writer of the server state record')
+        if not ok:
+            continue
+        payload = K.rexpr(func, call.args[1])
+        vals = dict((k.value, v) for k, v in zip(payload.keys,
+                                                  payload.values)
+                    if isinstance(k, ast.Constant))
+        pair = [st for st in K.walk_no_nested(func.node)
+                if isinstance(st, ast.Assign) and isinstance(
+                    st.value, ast.Call) and K.is_meth(st.value, 'get_state')
+                and isinstance(st.targets[0], ast.Tuple) and
+                len(st.targets[0].elts) == 2]
+        okp = False
+        if pair and 'since' in vals and 'state' in vals:
+            st_name = N.txt(pair[0].targets[0].elts[0])
+            si_name = N.txt(pair[0].targets[0].elts[1])
+            okp = N.txt(vals['since']) == si_name and \
+                st_name in N.mentions(vals['state'])
+        elif 'since' in vals and 'state' in vals:
+            okp = 'get_state()[1]' in K.rtxt(func, vals['since']) and \
+                'get_state()[0]' in K.rtxt(func, vals['state'])
+        ctx.ob('C08.6', func, call, okp,
+               "the record carries the model's (state, since) pair as "
+               'get_state() returns it (since: %s)' % (
+                   N.txt(vals['since']) if 'since' in vals else 'missing'),
+               construct='state record payload')
+
+
 def _bookkeeping(ctx):
     state_stored(ctx)
+    _state_record(ctx)
     _leaf_ignores_state(ctx)
     _blacklist_flags(ctx)
     index = ctx.index
